@@ -120,12 +120,35 @@ theorem justify_bracket_restores_stream {s s1 s2 s3 s4 : Seg} {l : List Nat} {n 
 obligation fails: fix f76710b6.) -/
 theorem justify_takes_the_second_line_end_out_first : Gen.Justify.bracketRemovedLastInsertedFirst = true := by decide
 
+/-- the same for the bracket as the model transcribes it from the code of this run (`Seg.justifyBracket` branches on the regenerated order) -/
+theorem justify_bracket_as_coded_restores_stream {s s' : Seg} {l : List Nat} {n m g : Nat}
+    (hl : Linked s l) (hc : Clean s l) (hn : n ∈ l) (hm : m ∈ l) (h : s.justifyBracket n m g = some s') : Linked s' l := by
+  unfold Seg.justifyBracket at h
+  cases h1 : s.addLineEnd (some n) g with
+  | none => rw [h1] at h; cases h
+  | some r1 =>
+    obtain ⟨e1, s1⟩ := r1
+    rw [h1] at h
+    simp only [] at h
+    cases h2 : s1.addLineEnd (some m) g with
+    | none => rw [h2] at h; cases h
+    | some r2 =>
+      obtain ⟨e2, s2⟩ := r2
+      rw [h2] at h
+      simp only [justify_takes_the_second_line_end_out_first, if_true] at h
+      cases h3 : s2.delLineEnd e2 with
+      | none => rw [h3] at h; cases h
+      | some s3 =>
+        rw [h3] at h
+        exact bracket_roundtrip hl hc hn hm h1 h2 h3 h
+
 def seg2 : Seg :=
   { slots := #[({} : Slot).setNext (some 1), ({} : Slot).setPrev (some 0), {}, {}],
     first := some 0, last := some 1, free := [2, 3], numGlyphs := 2, numChars := 2 }
 
 example : Linked seg2 [0, 1] ∧ Clean seg2 [0, 1] := by
   refine ⟨⟨by decide, by decide, rfl, rfl, by simp only [Chain]; decide⟩, ⟨by decide, by decide, by decide, by decide, by decide, rfl⟩⟩
+example : ((seg2.justifyBracket 0 0 64).map fun s => ((s.get 0).prev, (s.get 0).next, (s.get 1).prev, s.first, s.last)) = some (none, some 1, some 0, some 0, some 1) := by decide
 example : ((bracketSame seg2 0 true).map fun s => ((s.get 0).prev, (s.get 0).next, (s.get 1).prev, s.first, s.last)) =
     some (none, some 1, some 0, some 0, some 1) := by decide
 example : ((bracketSame seg2 0 false).map fun s => ((s.get 0).prev, (s.get 2).next)) = some (some 2, some 0) := by decide
